@@ -38,7 +38,7 @@ def gen(rng, tier, index):
         if rng.random() < 0.2:
             cfg["pub_raise"] = sorted(rng.sample(range(30), 4))
     n_ops = rng.randint(10, 60 if tier == "thorough" else 40)
-    ops = netgen.make_ops(rng, cfg["version"], n_ops, WEIGHTS, probes_after_hostile=True)
+    ops = netgen.make_ops(rng, cfg["version"], n_ops, WEIGHTS, probes_after_hostile=True, hostile_values=True, scenario=0.2)
     return {"cfg": cfg, "ops": ops}
 
 
